@@ -123,6 +123,7 @@ def build(manifest):
     rewrites = []
     f = for_each_to_index_loop(norm_vis(clean_fn(asp.impl_fn(r'^impl AddressSpace \{', 'delete'))), rewrites)
     f = vec_to_index_loop(f, rewrites)      # the same loop written as `for node_id in child_nodes { .. }`
+    f = all_to_index_loop(f, rewrites)      # ... or as `let _ = child_nodes.into_iter().all(|node_id| { .. })` (stops at the first false)
     f = splice_contract(f, SPEC['delete'][1], 'r')
     if rewrites:
         f = splice_loop(f, 0, LOOP)
